@@ -11,4 +11,5 @@ mod tape;
 mod world;
 
 pub use tape::Tape;
+pub mod interpose;
 pub use world::*;
